@@ -175,6 +175,12 @@ func genCborEnc(tier string, seed uint64) {
 			emit("cborenc {2,s61,t%d.%s,s62,t%d.%s,}", tg, mid, tg, mid)
 		}
 	}
+	// more open containers than a 16-bit counter holds
+	emit("cborenc %s0%s", strings.Repeat("[1,", 65538), strings.Repeat(",]", 65538))
+	if tier == "thorough" {
+		emit("cborenc %s0%s", strings.Repeat("{-1,s6b,", 65537), strings.Repeat(",}", 65537))
+		emit("cborenc %s0%s", strings.Repeat("[-1,", 131073), strings.Repeat(",]", 131073))
+	}
 	emitShapes("cborenc", tier)
 	// 5. deep nesting
 	for _, d := range []int{10, 1000, 5000} {
@@ -501,6 +507,32 @@ func genCborDec(tier string, seed uint64) {
 		for _, n := range []uint64{33554431, 33554432, 33554433, 1 << 40, 1<<63 - 1, 1 << 63, 1<<64 - 1} {
 			emitDec(headBytes(major, n, 0))
 			emitDec(append(headBytes(major, n, 0), 0x01, 0x02))
+		}
+	}
+	// every small tag number (and a few large ones) on every kind of item, definite and chunked
+	for tg := uint64(0); tg <= 300; tg++ {
+		h := headBytes(0xc0, tg, 0)
+		for _, it := range []string{"00", "4101", "5f42010241 03ff", "7f6161ff", "80", "9fff", "a0", "bf616b01ff", "f6", "fb3ff8000000000000", "d82a4101"} {
+			b, _ := hex.DecodeString(strings.ReplaceAll(it, " ", ""))
+			emitDec(append(append([]byte{}, h...), b...))
+		}
+	}
+	// a break where a value is due (a dangling key), a break inside a definite container, an odd number of items in an
+	// indefinite map: refused at every depth, under every kind of parent
+	for _, d := range []int{0, 1, 2, 30, 31, 32, 33, 62, 63, 64, 65, 66, 100, 127, 128, 129, 255, 256, 257} {
+		for _, parent := range []string{"81", "9f", "a1616b", "bf616b"} {
+			pre, _ := hex.DecodeString(strings.Repeat(parent, d))
+			for _, bad := range []string{"bf616bff", "bf6161016162ff", "81ff", "a1616bff", "bf01ff", "9f01ffff", "bf616b01616cff"} {
+				b, _ := hex.DecodeString(bad)
+				emitDec(append(append([]byte{}, pre...), b...))
+			}
+		}
+	}
+	// strings whose length is an exact multiple of 1 MiB (and one off)
+	for _, n := range []int{1 << 20, 1<<20 + 1, 2 << 20, 3 << 20} {
+		for _, major := range []byte{0x40, 0x60} {
+			item := append(headBytes(major, uint64(n), 0), bytes.Repeat([]byte{0x62}, n)...)
+			emitDec(item)
 		}
 	}
 	emitShapes("cbordec", tier)
